@@ -51,6 +51,44 @@ func (n *hnode) Reopen() error {
 	return nil
 }
 func (n *hnode) Type() el.NodeType { return n.typ }
+
+// wrapNode hides the Closer behind an Unwrap (NodeController must unwrap, possibly twice, before closing)
+type wrapNode struct {
+	inner el.Node
+}
+
+func (w *wrapNode) Process(ctx context.Context, e *el.Event) (*el.Event, error) {
+	return w.inner.Process(ctx, e)
+}
+func (w *wrapNode) Reopen() error     { return w.inner.Reopen() }
+func (w *wrapNode) Type() el.NodeType { return w.inner.Type() }
+func (w *wrapNode) Unwrap() el.Node   { return w.inner }
+
+// plainNode has neither Close nor Unwrap
+type plainNode struct {
+	h *hnode
+}
+
+func (p *plainNode) Process(ctx context.Context, e *el.Event) (*el.Event, error) {
+	return p.h.Process(ctx, e)
+}
+func (p *plainNode) Reopen() error     { return p.h.Reopen() }
+func (p *plainNode) Type() el.NodeType { return p.h.Type() }
+
+func hnodeOf(n el.Node) *hnode {
+	for {
+		switch t := n.(type) {
+		case *hnode:
+			return t
+		case *wrapNode:
+			n = t.inner
+		case *plainNode:
+			return t.h
+		default:
+			return nil
+		}
+	}
+}
 func (n *hnode) Close(ctx context.Context) error {
 	n.mu.Lock()
 	n.closed++
@@ -73,13 +111,14 @@ type Op struct {
 	IDs  []int  `json:"ids,omitempty"`
 	V    int64  `json:"v,omitempty"`
 	Fail int    `json:"fail,omitempty"`
+	Wrap int    `json:"wrap,omitempty"` // regnode: 0 plain Closer, 1/2 wrapped once/twice behind Unwrap, 3 no Close method
 }
 type Case struct {
-	ID         int   `json:"id"`
+	ID         int    `json:"id"`
 	Gen        string `json:"gen"`
-	CloseFails []int `json:"close_fails,omitempty"`
-	Types      []int `json:"types"`
-	Ops        []Op  `json:"ops"`
+	CloseFails []int  `json:"close_fails,omitempty"`
+	Types      []int  `json:"types"`
+	Ops        []Op   `json:"ops"`
 }
 
 func nid(i int) el.NodeID {
@@ -180,7 +219,7 @@ type world struct {
 func (w *world) observe(types []int, o *Obs) {
 	nodes, graphs := w.b.VerifSnapshot()
 	for _, n := range nodes {
-		h, _ := n.Node.(*hnode)
+		h := hnodeOf(n.Node)
 		obj := 0
 		if h != nil {
 			obj = h.obj
@@ -193,7 +232,7 @@ func (w *world) observe(types []int, o *Obs) {
 		for _, p := range g.Pipelines {
 			po := PObs{Ety: unN(string(g.EventType)), Pid: unN(string(p.ID)), Pol: string(p.Policy)}
 			for _, l := range p.Nodes {
-				h, _ := l.Node.(*hnode)
+				h := hnodeOf(l.Node)
 				obj := 0
 				if h != nil {
 					obj = h.obj
@@ -246,7 +285,16 @@ func (w *world) apply(op Op, closeFails map[int]bool) Obs {
 		h := &hnode{obj: op.Obj, typ: ntype(op.Ty), closeErr: closeFails[op.Obj]}
 		w.all = append(w.all, h)
 		before = append(before, 0)
-		err := w.b.RegisterNode(nid(op.ID), h, polOpt(op.Pol, true)...)
+		var node el.Node = h
+		switch op.Wrap {
+		case 1:
+			node = &wrapNode{inner: h}
+		case 2:
+			node = &wrapNode{inner: &wrapNode{inner: h}}
+		case 3:
+			node = &plainNode{h: h}
+		}
+		err := w.b.RegisterNode(nid(op.ID), node, polOpt(op.Pol, true)...)
 		o.Ok, o.Err = err == nil, err != nil
 	case "rmnode":
 		err := w.b.RemoveNode(ctx, nid(op.ID))
@@ -394,7 +442,13 @@ func caseLit(c Case, obs []Obs) string {
 	for i := range c.Ops {
 		steps[i] = hc.Pair(opLit(c.Ops[i]), obsLit(obs[i]))
 	}
-	return fmt.Sprintf("Build_bcase %s %s\n  %s", hc.N(c.ID), hc.NList(c.CloseFails), hc.List(steps))
+	var nonClosers []int
+	for _, op := range c.Ops {
+		if op.K == "regnode" && op.Wrap == 3 {
+			nonClosers = append(nonClosers, op.Obj)
+		}
+	}
+	return fmt.Sprintf("Build_bcase %s %s %s\n  %s", hc.N(c.ID), hc.NList(c.CloseFails), hc.NList(nonClosers), hc.List(steps))
 }
 
 // ---------- generators ----------
@@ -610,7 +664,11 @@ func genRandom(e *emitter, r *hc.Rand, n, maxLen int) {
 				if r.Chance(3, 4) && pol == 3 {
 					pol = 0
 				}
-				ops = append(ops, Op{K: "regnode", ID: id, Ty: ty, Pol: pol})
+				wrap := 0
+				if r.Chance(1, 3) {
+					wrap = 1 + r.Intn(3)
+				}
+				ops = append(ops, Op{K: "regnode", ID: id, Ty: ty, Pol: pol, Wrap: wrap})
 				registered[id] = true
 				nobj++
 			case x < 30:
@@ -809,7 +867,7 @@ func main() {
 			}
 			// two roots: the empty broker (shallow), and a broker with the four nodes registered (the interesting part of the space)
 			d0, s0, ex0 := genBFS(e, 2, budget, *bfsReopen, nil)
-			seeded := numberObjs([]Op{{K: "regnode", ID: 1, Ty: 1}, {K: "regnode", ID: 2, Ty: 2}, {K: "regnode", ID: 3, Ty: 3}, {K: "regnode", ID: 4, Ty: 3}})
+			seeded := numberObjs([]Op{{K: "regnode", ID: 1, Ty: 1, Wrap: 1}, {K: "regnode", ID: 2, Ty: 2}, {K: "regnode", ID: 3, Ty: 3, Wrap: 2}, {K: "regnode", ID: 4, Ty: 3}})
 			d, s, ex := genBFS(e, *bfsDepth, budget, *bfsReopen, seeded)
 			summary["bfs_empty_root_depth_completed"] = d0
 			summary["bfs_depth_completed"] = d
